@@ -229,6 +229,12 @@ func (t *FSTree) readHeader(id oid.ID, f *os.File, buf []byte) ([]byte, io.ReadS
 			if l == 0 {
 				return nil, nil, io.ErrUnexpectedEOF
 			}
+			if offset > len(buf)-objectwire.NonPayloadFieldsBufferLength {
+				// after a refill the entry can start up to combinedDataOff-1 bytes
+				// beyond the buffer's half, make room for its header
+				n = copy(buf, buf[offset:n])
+				offset = 0
+			}
 			size := min(offset+int(l), offset+objectwire.NonPayloadFieldsBufferLength)
 			if n < size {
 				_, err = io.ReadFull(f, buf[n:size])
